@@ -108,8 +108,8 @@ def replay_merger(d):
     return (not p), "seed %s: %s" % (d["inputs"]["seed"], p or "merge == sorted union")
 
 
-@bounded("C12.bam_merger", ["C12"], shards=8, note="the real BAMOnlineMerger over 1-3 pysam-written coordinate-sorted BAMs of <= 5 records with many "
-         "equal (start, end) pairs: the merged stream is the multiset union of the files, ordered by (start, end, file index), and never "
+@bounded("C12.bam_merger", ["C12", "C09"], shards=8, note="the real BAMOnlineMerger over 1-3 pysam-written coordinate-sorted BAMs of <= 5 records with many "
+         "equal (start, end) pairs (some files empty): the merged stream is the multiset union of the files, ordered by (start, end, file index), every record labelled with the index of the file it came from (the file-name read group), and never "
          "compares two AlignedSegment objects (no TypeError)")
 def c12_merger(tier, rng):
     n = 60 if tier == "quick" else 3000
